@@ -258,6 +258,7 @@ type FuncCtx struct {
 	loopKeys   map[string]int
 	deferred   []*ast.DeferStmt
 	retCount   int
+	inlineStack []*inlineFrame // function literals being executed in place
 	specPos    token.Pos
 	curCallee  *calleeCtx // when evaluating a callee's contract
 	theories   map[string]bool
